@@ -68,7 +68,7 @@ def render1(n, ind):
         body = ("if k == 0 then error e elif k == 1 then undefined_name_xyz elif k == 2 then 1 / 0 "
                 "elif k == 3 then return rv elif k == 4 then break else continue")
         return ("%sif sel == %d then do def k = kind; def e = ev; %s end;\n"
-                "%sif sel2 == %d then do def k = kind2; def e = ev2; %s end" % (ind, p, body, ind, p, body))
+                "%sif sel2 == %d then do def k = kind2; def e = ev2; %s end" % (ind, p, body, ind, p, body.replace("return rv", "return rv2")))
     if t == "block":
         _, body, catches, fin = n
         s = "%sdo\n%s" % (ind, render(body, ind + "  "))
@@ -132,7 +132,7 @@ class Ref:
         self.log_unspecified = False     # a control exit fired inside a finally part
         self.all_unspecified = False     # ... while no error was in flight
 
-    def fire(self, k, e):
+    def fire(self, k, e, rv=None):
         if self.in_finally and k in (3, 4, 5):
             raise FinCtl()
         if k == 0:
@@ -142,7 +142,7 @@ class Ref:
         if k == 2:
             raise Err(self.error)
         if k == 3:
-            raise Ret(self.v["rv"])
+            raise Ret(self.v["rv"] if rv is None else rv)
         if k == 4:
             raise Brk()
         raise Cnt()
@@ -168,7 +168,7 @@ class Ref:
             if v["sel"] == n[1]:
                 self.fire(v["kind"], v["ev"])
             if v["sel2"] == n[1]:
-                self.fire(v["kind2"], v["ev2"])
+                self.fire(v["kind2"], v["ev2"], v.get("rv2"))
             return None
         if t == "block":
             _, body, catches, fin = n
@@ -252,6 +252,9 @@ class Ref:
             t = "call"
         if t == "call":
             _, name, tag = n
+            # a return / stray break / continue inside the callee is an ordinary exit of the callee,
+            # also when the call sits in a finally part
+            saved, self.in_finally = self.in_finally, 0
             try:
                 r = self.run(self.funs[name])
             except Ret as e:
@@ -261,6 +264,8 @@ class Ref:
             except FinCtl:
                 self.all_unspecified = True
                 r = None
+            finally:
+                self.in_finally = saved
             self.log.append(self.mk([self.mk(tag), r]))
             return None
         if t == "if":
